@@ -27,6 +27,7 @@ PROPS["C13"] = {
             "tests": {
                 "TestC13History": T(30000, 2000000),
                 "TestC13Twin": T(4000, 200000),
+                "TestC13Injective": T(20000, 1000000),
             },
         },
     ],
